@@ -2,6 +2,8 @@ package simkit
 
 import (
 	"fmt"
+	"runtime/debug"
+	"strings"
 	"time"
 
 	"ergo.services/ergo/gen"
@@ -69,8 +71,30 @@ type panicLogger struct {
 
 func (l *panicLogger) Log(m gen.MessageLog) {
 	l.e.Probe("panic-recovered-in-node")
+	// the logger runs in the deferred function of the panicking goroutine: its stack still shows
+	// where the panic was raised; keep the repository frames below the panic call
+	where := ""
+	st := string(debug.Stack())
+	if i := strings.Index(st, "panic("); i >= 0 {
+		k := 0
+		for _, ln := range strings.Split(st[i:], "\n") {
+			ln = strings.TrimSpace(ln)
+			if strings.HasPrefix(ln, "/repo/") || strings.Contains(ln, "/instr_out/src/") {
+				if j := strings.Index(ln, " +0x"); j > 0 {
+					ln = ln[:j]
+				}
+				if j := strings.Index(ln, "/instr_out/src/"); j >= 0 {
+					ln = ln[j+len("/instr_out/src/"):]
+				}
+				where += " < " + strings.TrimPrefix(ln, "/repo/")
+				if k++; k == 4 {
+					break
+				}
+			}
+		}
+	}
 	l.e.mu.Lock()
-	l.e.panics = append(l.e.panics, fmt.Sprintf("%s: "+m.Format, append([]any{l.node}, m.Args...)...))
+	l.e.panics = append(l.e.panics, fmt.Sprintf("%s: "+m.Format, append([]any{l.node}, m.Args...)...)+" [raised at"+where+"]")
 	l.e.mu.Unlock()
 }
 func (l *panicLogger) Terminate() {}
